@@ -13,7 +13,9 @@ Final        == Complete
 ExplicitWait == \/ wf.status \in {"BUFFERED", "PAUSED"}
                 \/ \E s \in DOMAIN st : st[s].status \in {"SUSPENDED", "PAUSED"}
 
-AllowedFinal(s) == IF s \in Racy THEN {Ideal.st[s], "CANCELED", "NOT_STARTED"} ELSE {Ref.st[s]}
+AllowedFinal(s) == IF s \in Racy THEN {Ideal.st[s], "CANCELED", "NOT_STARTED"}
+                   ELSE IF Ref.st[s] = "ABSENT" THEN {"NOT_STARTED"}     \* a synthetic child the reference run never created
+                   ELSE {Ref.st[s]}
 OutcomeEq == /\ wf.status = Ref.wf
              /\ \A s \in DOMAIN st : st[s].status \in AllowedFinal(s)
 
@@ -121,7 +123,8 @@ C15_RearmExact_A ==
        LET src == Cur.s tgt == Cur.target
            back == src = tgt \/ src \in Dependents(tgt)
            rearmed == {s \in DOMAIN st : st'[s].status = "NOT_STARTED" /\ (st[s].status # "NOT_STARTED" \/ s = tgt)}
-       IN rearmed \subseteq ({tgt} \cup DependOnly(tgt) \cup (IF back THEN {src} ELSE {}))
+           base == {tgt} \cup DependOnly(tgt) \cup (IF back THEN {src} ELSE {})
+       IN rearmed \subseteq (base \cup UNION {Children(x) : x \in base})     \* and their synthetic children
           /\ tgt \in rearmed
 C15_RearmExact == [][C15_RearmExact_A]_vars
 C15_OncePerIteration == \A s \in Stages : gh.starts[s] <= gh.rearms[s] + 1
